@@ -19,3 +19,15 @@ package maincmd
 // same mapping on the client and in the daemon).
 //@ func maincmd.ClientRun
 //@   at[C14] (*receiver.Transfer).ReceiveFileList: assert [options-mapped-one-to-one] arg0.Opts.PreserveUid == (opts.preserve_uid != 0) && arg0.Opts.PreserveGid == (opts.preserve_gid != 0) && arg0.Opts.PreserveLinks == (opts.preserve_links != 0) && arg0.Opts.PreservePerms == (opts.preserve_perms != 0) && arg0.Opts.PreserveDevices == (opts.preserve_devices != 0) && arg0.Opts.PreserveSpecials == (opts.preserve_specials != 0) && arg0.Opts.PreserveTimes == (opts.preserve_mtimes != 0) && arg0.Opts.AlwaysChecksum == (opts.always_checksum != 0) && arg0.Opts.IgnoreTimes == (opts.ignore_times != 0) && arg0.Opts.DryRun == (opts.dry_run != 0) && arg0.Opts.DeleteMode == (opts.delete_mode != 0)
+
+// ---------------------------------------------------------------- C14: who sends the filter list
+// One int32 per rule (its length) and the int32 0 that ends the list: sent by
+// a receiving client always, by a sending client exactly when the server
+// deletes (and so reads it).
+//@ ghost cmark: int
+//@ func maincmd.ClientRun
+//@   at[C14] progress.NewPrinter: set ghost.cmark = ghost.int32sWritten
+//@   loop[C14] 1: invariant [one-length-per-rule] -1 <= rangeindex && ghost.int32sWritten == ghost.cmark + rangeindex + 1
+//@   loop[C14] 2: invariant [one-length-per-rule] -1 <= rangeindex && ghost.int32sWritten == ghost.cmark + rangeindex + 1
+//@   at[C14] (*sender.Transfer).Do: assert [filter-list-sent-exactly-when-the-server-deletes] ghost.int32sWritten == ghost.cmark + ite(opts.delete_mode != 0, len(opts.filterRules) + 1, 0)
+//@   at[C14] (*receiver.Transfer).ReceiveFileList: assert [filter-list-always-sent] ghost.int32sWritten == ghost.cmark + len(opts.filterRules) + 1
